@@ -820,14 +820,20 @@ theorem F_C16_f_single_tuple_dominance :
     outcome (linearConstraints ⟨.s false [.a (.int 1), .a (.int 1)], .s true [.a (.int 0), .a (.int 1)],
       .a .none, .a .none, .a .none⟩) = 2 := by decide +kernel
 
-/-- **F-C16-h** `LatticeConstraints` documents its trust / dominance arguments with "same meaning
-as the corresponding parameter of `Lattice`" (None, ONE tuple, or an iterable of tuples) but only
-`Lattice.__init__` wraps a single tuple: given to the constraints class it is a `TypeError` -/
-theorem F_C16_h_single_tuple_trust :
+/-- **F-C16-h, fixed**: `LatticeConstraints` documents its trust / dominance arguments with "same
+meaning as the corresponding parameter of `Lattice`" (None, ONE tuple, or an iterable of tuples);
+a single tuple given to the constraints class (formerly a `TypeError`) is now wrapped and accepted,
+and configures the same thing as the one-element list -/
+theorem fixed_C16_h_single_tuple_trust :
     outcome (latticeConstraints ⟨.s false [.a (.int 2), .a (.int 2)], .s false [.a (.int 1), .a (.int 1)], .a .none,
-      .s true [.a (.int 0), .a (.int 1), .a (.str .positive)], .a .none, .a .none, .a .none, .a .none, .none, .a .none, .a .none⟩) = 2 ∧
+      .s true [.a (.int 0), .a (.int 1), .a (.str .positive)], .a .none, .a .none, .a .none, .a .none, .none, .a .none, .a .none⟩) = 0 ∧
     outcome (latticeConstraints ⟨.s false [.a (.int 2), .a (.int 2)], .s false [.a (.int 1), .a (.int 1)], .a .none,
-      .a .none, .a .none, .s true [.a (.int 0), .a (.int 1)], .a .none, .a .none, .none, .a .none, .a .none⟩) = 2 := by decide +kernel
+      .a .none, .a .none, .s true [.a (.int 0), .a (.int 1)], .a .none, .a .none, .none, .a .none, .a .none⟩) = 0 ∧
+    latticeConstraints ⟨.s false [.a (.int 2), .a (.int 2)], .s false [.a (.int 1), .a (.int 1)], .a .none,
+      .s true [.a (.int 0), .a (.int 1), .a (.str .positive)], .a .none, .a .none, .a .none, .a .none, .none, .a .none, .a .none⟩ =
+    latticeConstraints ⟨.s false [.a (.int 2), .a (.int 2)], .s false [.a (.int 1), .a (.int 1)], .a .none,
+      .s false [.s true [.int 0, .int 1, .str .positive]], .a .none, .a .none, .a .none, .a .none, .none, .a .none, .a .none⟩ := by
+  decide +kernel
 
 /-- **F-C16-i, fixed by b89ac95**: dominances with `monotonicities=None` (formerly an
 `AssertionError`) and an `input_min` shorter than `monotonicities` (formerly an `IndexError`) are
